@@ -376,7 +376,16 @@ fn case_brute(r: &mut Rng, out: &mut Out) {
             uvec(&keep),
             res_term(&resf)
         )),
-        oracle: if resf.iter().all(|(id, _)| ks.contains(&id.0)) { Oracle::Ok } else { Oracle::Fail },
+        oracle: {
+            // the k nearest among the kept vectors, exact distances, only kept ids
+            let mut kept: Vec<i64> = xs.iter().filter(|(i, _)| ks.contains(i)).map(|(_, v)| mt.exact(&q, v)).collect();
+            kept.sort();
+            let okf = resf.len() == k.min(kept.len())
+                && resf.iter().all(|(id, _)| ks.contains(&id.0))
+                && resf.iter().enumerate().all(|(i, (_, d))| d.to_bits() == mt.expected_f32(kept[i]).to_bits());
+            if okf { Oracle::Ok } else { Oracle::Fail }
+        },
+        msg: "brute_force_knn_filtered must return the k nearest of the vectors that pass the predicate".into(),
         nontrivial: n >= 2 && k >= 1,
         imp: res_human(&resf),
         tags,
@@ -1406,6 +1415,18 @@ fn case_qtwin(r: &mut Rng, out: &mut Out, forced: bool) {
             let twin_k = twin.search_with_ef(&fq, k, ef);
             if res.len() < twin_k.len() && st.fail.is_none() {
                 st.fail = Some(format!("{} results but the plain index returns {} for the same k", res.len(), twin_k.len()));
+            }
+            // with rescoring and no pre-ranking: the k best of the k * factor candidates of the plain index
+            if resc && pre == 0 && st.fail.is_none() {
+                if let Some(nc) = mults.iter().try_fold(k, |a, m| a.checked_mul(*m)) {
+                    let mut cands = twin.search_with_ef(&fq, nc, ef);
+                    cands.sort_by(|a, b| a.1.partial_cmp(&b.1).unwrap());
+                    cands.truncate(k);
+                    let same = cands.len() == res.len() && cands.iter().zip(res.iter()).all(|(a, b)| a.1.to_bits() == b.1.to_bits());
+                    if !same {
+                        st.fail = Some(format!("rescored result {:?} is not the {} best of the plain index's {} candidates {:?}", res, k, nc, cands));
+                    }
+                }
             }
             (if st.fail.is_some() { Oracle::Fail } else { Oracle::Ok }, st.fail.clone().unwrap_or_default(), None, None)
         }
